@@ -201,7 +201,7 @@ fn fb_write_into<T: RtcpPacket>(
 
     end += fci.write_into_unchecked(&mut buf[idx..]);
 
-    end += writer::write_padding_unchecked(padding, &mut buf[idx..]);
+    end += writer::write_padding_unchecked(padding, &mut buf[end..]);
 
     end
 }
@@ -223,7 +223,7 @@ impl<'a> RtcpPacketWriter for TransportFeedbackBuilder<'a> {
         }
         let fci_len = self.fci.calculate_size()?;
 
-        Ok(TransportFeedback::MIN_PACKET_LEN + pad_to_4bytes(fci_len))
+        Ok(TransportFeedback::MIN_PACKET_LEN + pad_to_4bytes(fci_len) + self.padding as usize)
     }
 
     /// Write this TransportFeedback packet data into `buf` without any validity checks.
@@ -387,7 +387,7 @@ impl<'a> RtcpPacketWriter for PayloadFeedbackBuilder<'a> {
         }
         let fci_len = self.fci.calculate_size()?;
 
-        Ok(PayloadFeedback::MIN_PACKET_LEN + pad_to_4bytes(fci_len))
+        Ok(PayloadFeedback::MIN_PACKET_LEN + pad_to_4bytes(fci_len) + self.padding as usize)
     }
 
     /// Write this TransportFeedback packet data into `buf` without any validity checks.
